@@ -257,7 +257,7 @@ impl Model for XModel {
         format!("C19/N={}", self.n)
     }
     fn run(&self, history: &[XOp]) -> StepResult<XOp> {
-        let mut w = XWorld::new(self.n, self.n + 2);
+        let mut w = XWorld::new(self.n, self.n + 3);
         let mut v = Vec::new();
         for op in history {
             // a panic of the index is a verdict, not a crash of the explorer
@@ -282,7 +282,8 @@ impl Model for XModel {
             }
         }
         enabled.push(XOp::Connect(8));
-        if w.chain.len() > 1 && !w.reference.is_empty() {
+        // (also beyond what the index holds: a reorg deeper than N blocks)
+        if w.chain.len() > 1 {
             enabled.push(XOp::Disconnect);
         }
         let outcome = format!("held={} chain={}", w.reference.len(), w.chain.len());
@@ -305,7 +306,8 @@ fn c19_family(n: usize, run: &Run) -> (u64, u64) {
             .map(|i| XOp::Connect(if i % (n + 1) == 0 { 1u8 << ((i / (n + 1)) % 3) } else { 0 }))
             .collect(),
     );
-    let depths: Vec<usize> = if n <= 6 { (1..=n).collect() } else { vec![1, 2, 3, 5, 6, 7, 50, 99, 100] };
+    // (n + 1 and n + 2: reorgs deeper than the index)
+    let depths: Vec<usize> = if n <= 6 { (1..=n + 2).collect() } else { vec![1, 2, 3, 5, 6, 7, 50, 99, 100, 101, 102] };
     for d in depths {
         for pre in [0usize, 1, n / 2, n] {
             let mut s: Vec<XOp> = (0..pre).map(|_| XOp::Connect(0)).collect();
@@ -329,7 +331,7 @@ fn c19_family(n: usize, run: &Run) -> (u64, u64) {
         }
     }
     for s in scripts {
-        let mut w = XWorld::new(n, n + 2);
+        let mut w = XWorld::new(n, n + 3);
         execs += 1;
         for (i, op) in s.iter().enumerate() {
             w.apply(op);
@@ -349,7 +351,7 @@ pub fn c19_replay(v: &serde_json::Value) -> i32 {
     let h = if h.get("history").is_some() { &h["history"] } else { h };
     let n = h["n"].as_u64().unwrap() as usize;
     let ops: Vec<XOp> = serde_json::from_value(h["ops"].clone()).unwrap();
-    let mut w = XWorld::new(n, n + 2);
+    let mut w = XWorld::new(n, n + 3);
     let mut bad = 0;
     for op in ops {
         w.apply(&op);
